@@ -7,7 +7,17 @@ from pyval import enc, dec
 
 def _msg(m): return re.sub(r"0x[0-9a-fA-F]+", "0x?", m or "")
 def canon(resp):
-    return _msg(json.dumps({"data": enc(resp.get("data")), "errors": [[e.get("path"), _msg(e.get("message")), e.get("locations")] for e in resp.get("errors") or []]}, sort_keys=True, default=str))
+    return _msg(json.dumps({"data": enc(resp.get("data")), "errors": [[e.get("path"), _msg(e.get("message")), e.get("locations"), e.get("extensions")] for e in resp.get("errors") or []]}, sort_keys=True, default=str))
+
+def stamping_coercer(tag):
+    """enriches every reported error IN PLACE with a bundle- and message-specific key (the documented way to add data to an
+    error): what one engine writes may never show up in an error of another engine, or of another request"""
+    async def coercer(exception, error):
+        key = "m-" + hashlib.sha256(str(error.get("message")).encode()).hexdigest()[:6]
+        if isinstance(error.get("extensions"), dict): error["extensions"][key] = tag
+        else: error["extensions"] = {key: tag}
+        return error
+    return coercer
 
 class TaggedScalar(er.CustomScalar):
     """bundle-specific scalar implementation: makes cross-talk between schema names visible"""
@@ -59,7 +69,8 @@ class CookFailed:
 async def cook(bundle):
     from tartiflette import create_engine
     try:
-        return await create_engine(print_sdl(bundle["model"]), schema_name=bundle["name"])
+        kw = {"error_coercer": stamping_coercer(bundle["tag"])} if bundle.get("stamping") else {}
+        return await create_engine(print_sdl(bundle["model"]), schema_name=bundle["name"], **kw)
     except Exception as e:
         return CookFailed(e)
 
@@ -95,6 +106,8 @@ def make_bundle(rng, idx):
             for f in t["fields"]:
                 if f["type"] == {"n": "String"} and rng.random() < 0.6:
                     f["sdl_directives"] = " @mark"; marked += 1
+                if rng.random() < 0.25 and len(t["fields"]) > 1:
+                    f["sdl_directives"] = f.get("sdl_directives", "") + (' @deprecated(reason: "old")' if rng.random() < 0.6 else " @deprecated")
     ext_target = sg.obj_names[0]
     # the same directive NAME is declared with different locations under different schema names: a document using
     # @mark on a query field is valid for a "wide" bundle and must be refused by a "narrow" one, whoever validated first
@@ -108,7 +121,15 @@ def make_bundle(rng, idx):
     # what each engine says about ITS OWN schema (type names are shared between bundles, their members are not)
     probes.append(("{ __schema { types { name kind fields { name args { name } } enumValues { name } possibleTypes { name } } directives { name locations } } }", None, None))
     probes.append(('{ a: __type(name: "T") { fields(includeDeprecated: true) { name } } b: __type(name: "Query") { fields { name type { name kind } } } }', None, None))
-    return {"name": f"name{idx}", "model": model, "env": renv, "tag": tag, "probes": probes}
+    # deprecated members are listed / hidden by THIS name's introspection resolvers
+    for tn in sg.obj_names[:3]:
+        probes.append((f'{{ __type(name: "{tn}") {{ shown: fields(includeDeprecated: false) {{ name }} dflt: fields {{ name }} all: fields(includeDeprecated: true) {{ name isDeprecated deprecationReason }} }} }}', None, None))
+    if sg.enums:
+        probes.append((f'{{ __type(name: "{sg.enums[0]["name"]}") {{ a: enumValues(includeDeprecated: false) {{ name }} b: enumValues(includeDeprecated: true) {{ name isDeprecated }} }} }}', None, None))
+    # refused documents: the errors (and whatever this name's error coercer writes into them) stay with this engine
+    probes.append(("{ nope_field }", None, None)); probes.append(("{ __typename @nopeDirective }", None, None))
+    probes.append(("query A { __typename } query A { __typename }", "A", None)); probes.append(("{ __typename ...Ghost }", None, None))
+    return {"name": f"name{idx}", "model": model, "env": renv, "tag": tag, "probes": probes, "stamping": rng.random() < 0.6}
 
 def alone(bundle):
     """build the bundle alone in a fresh process"""
